@@ -172,6 +172,29 @@ def check_redefine(case, ctx):
     pkg.compare_matrix(ctx, 'k0(after edit)', K, Kref, TOL, num=pd.num, bucket=name)
 
 
+def check_high_order(case, ctx):
+    """series orders up to 30: k0 vs the exact separable reference (rational 1-D integrals, no quadrature)."""
+    from ..ref import exact
+    p = pkg.make_panel(case)
+    pd = pkg.make_pdef(case)
+    if min(gen.delta3d(q) for q in case['lam']['laminaprops']) < 1e-9:
+        ctx.exclude('3-D compliance determinant ~ 0')
+        return
+    name = 'k0.high-order[%s]' % case['model']
+    ctx.nontrivial = max(case['m'], case['n']) >= 14
+    ctx.label('model:' + case['model'], 'max(m,n):%d' % (max(case['m'], case['n']) // 5 * 5), gen.flag_class(case['flags']))
+    with package(name):
+        K = dense(p.calc_k0(silent=True))
+    Kref = exact.k0(pd, pkg.ref_F(case))
+    pkg.compare_matrix(ctx, name, K, Kref, 1e-10, num=pd.num, bucket=name)
+    ctx.close('symmetry', K, K.T, 1e-13, bucket=name + '.symmetry')
+
+
+@st.composite
+def _high_order_strategy(draw, tier='quick'):
+    return draw(pkg.high_order_case(tier))
+
+
 @st.composite
 def _redefine_strategy(draw, tier='quick'):
     case = draw(pkg.panel_case(mmax=4, sub_interval=False, max_plies=4))
@@ -214,6 +237,10 @@ SUBS = [
     Sub('redefine', _redefine_strategy, check_redefine, quick=128, thorough=2000,
         rule='one Panel object reused: calc_k0, then the offset / a ply angle or thickness (edited in place in the list) / the '
              'force_orthotropic_laminate switch is changed, calc_k0 again: equals the energy Hessian of the new definition', shards_quick=16),
+    Sub('high_order', _high_order_strategy, check_high_order, quick=48, thorough=400,
+        rule='plate / w-only / cylindrical panels with series orders 7..30 (quick: m*n <= 330, thorough: up to 30x30), generic flags and '
+             'laminates: k0 vs the exact separable reference (rational 1-D integrals of the Bardell polynomials); non-trivial = an order >= 14',
+        shards_quick=16),
     Sub('rigid_body', _rigid_strategy, check_k0, quick=48, thorough=600,
         rule='unrestrained flat panels, m,n>=4: rigid-body modes are null vectors of k0; non-trivial as above',
         shards_quick=8),
